@@ -395,7 +395,7 @@ def run(tier, replay=None):
         doc = json.load(open(replay))
         print(json.dumps(doc, indent=1, default=str)[:3000])
         return 0
-    proof = common.prove(report, "C13", [], extra_targets=["Run/C13Run.vo"])
+    proof = common.prove(report, "C13", ["alarms"], extra_targets=["Run/C13Run.vo"])
     ok, log = common.coq_make(["Run/C13Run.vo"])
     if not ok:
         report.violation({"kind": "broken-obligation", "obligation": "Run/C13Run.vo does not build", "detail": log[-1500:], "also": proof.get("broken")}, False, tag="modelbuild")
